@@ -108,3 +108,10 @@ func errStr(err error) string {
 
 // ReplayOnly makes a check register its scenarios and return without exploring.
 var ReplayOnly bool
+
+func clone(b []byte) []byte {
+	if b == nil {
+		return nil
+	}
+	return append([]byte{}, b...)
+}
